@@ -106,7 +106,7 @@ func (c allCfg) simConfig() chainsim.Config {
 	}
 	return chainsim.Config{Seed: c.Seed, NKeys: nKeys,
 		Balances: map[int]int64{kN1: 30000000, kN2: 30000000, kN3: 30000000, kA1: 20000000, kA2: 20000000, kU1: 20000000, kU2: 5000000,
-			kOwner: 20000000, kN4: 30000000, kOut: 10000000, kA3: 9000000, kSpare: 9000000},
+			kOwner: 400000000, kN4: 30000000, kOut: 10000000, kA3: 9000000, kSpare: 9000000},
 		Nodes: nodes,
 		Apps:  []chainsim.AppSpec{{Key: kA1, Tokens: 2000000, Chains: []string{"0001"}}, {Key: kA2, Tokens: 3000000, Chains: []string{"0002"}}},
 		DAOTokens: 5000000, DAOOwner: kOwner, Servicer: -1, Features: feats,
